@@ -153,6 +153,7 @@ class World(object):
         import_repo()
         self.reg = seams.Registries()
         self.modstate = seams.ModuleState()
+        self.cwd0 = os.getcwd()          # the working directory is process-wide state too: a run may change it, the world puts it back
         self.clock = seams.SimClock()
         self.clock.install()
         self.uuid = seams.SimUUID(self.plan.get('uuid_seed', 1))
@@ -164,6 +165,7 @@ class World(object):
 
     def __exit__(self, et, ev, tb):
         try:
+            os.chdir(self.cwd0)
             if self.disk is not None:
                 self.disk.destroy()
         finally:
